@@ -17,6 +17,12 @@ type snippet struct {
 	decls  string
 	stmts  string
 	goStmt bool
+	// the state stream (state.go): templates have a top level (file-level declarations) and a tail
+	// (after the body; in the layout when the file extends one), decls is the imported file;
+	// ref is the reference semantics of a snippet that writes the host's shared variables
+	top, tail string
+	ref       func(h *run.Host, in run.Input)
+	state     bool
 }
 
 var words = []string{"alpha", "be<ta", "g&amma", "δelta", "eps\"ilon", "zeta'", "x y", ""}
